@@ -181,6 +181,7 @@ type lockAnalysis struct {
 	specByFld map[*types.Var]*guardSpec
 	resident  map[*types.Named]*guardSpec
 	retRes    map[*ssa.Function]*guardSpec // functions returning a pointer to a table-resident object
+	autoG     map[string]string            // "Type.field" -> lock: fields inferred to be guarded (written after construction, in no table)
 	impls     map[string][]*ssa.Function
 	fieldFns  map[*types.Var][]*ssa.Function // functions stored into func-typed struct fields
 	syncParam map[*ssa.Function]map[int]bool // params that are synchronous callbacks
@@ -311,6 +312,7 @@ func (c *Ctx) locks() *lockAnalysis {
 			}
 		}
 	}
+	la.autoGuard()
 	la.prepass()
 	// functions handing a table-resident pointer to their caller (fixpoint over the static call graph)
 	la.retRes = map[*ssa.Function]*guardSpec{}
@@ -1445,4 +1447,90 @@ func countNeeds(fi *fnLock, want map[string]bool) int {
 		}
 	}
 	return n
+}
+
+
+// autoGuard: a field of a lock-carrying shared struct that is in no table but is written after construction (a store on a
+// non-fresh object, an in-place container update, or its address handed out) is treated as guarded by the struct's lock, so
+// that the guarded-by discipline is checked for it instead of demanding a table entry: a new field that is properly locked
+// passes, one that is not is reported at the unlocked access.
+func (la *lockAnalysis) autoGuard() {
+	la.autoG = map[string]string{}
+	c := la.c
+	for i := range c.GuardSpecs {
+		gs := &c.GuardSpecs[i]
+		nt := c.namedType(gs.Pkg, gs.Type)
+		if nt == nil {
+			continue
+		}
+		st, ok := nt.Underlying().(*types.Struct)
+		if !ok {
+			continue
+		}
+		skip := map[string]bool{strings.SplitN(gs.Lock, ".", 2)[1]: true}
+		for _, f := range gs.Fields {
+			skip[f] = true
+		}
+		for _, ws := range writeOnceSpecs {
+			if ws.Type == gs.Type && ws.Pkg == gs.Pkg {
+				for _, f := range ws.Fields {
+					skip[f] = true
+				}
+			}
+		}
+		for j := 0; j < st.NumFields(); j++ {
+			f := st.Field(j)
+			if skip[f.Name()] || isSyncPrimitive(f.Type()) {
+				continue
+			}
+			if _, ex := sharedFieldExempt[gs.Type+"."+f.Name()]; ex {
+				continue
+			}
+			if la.writtenAfterConstruction(f) {
+				la.specByFld[f] = gs
+				la.autoG[gs.Type+"."+f.Name()] = gs.Lock
+			}
+		}
+	}
+}
+
+func (la *lockAnalysis) writtenAfterConstruction(f *types.Var) bool {
+	hit := false
+	for _, fn := range la.c.SrcFns {
+		if hit {
+			break
+		}
+		allInstrs(fn, func(in ssa.Instruction) {
+			fa, ok := in.(*ssa.FieldAddr)
+			if !ok || hit || fieldVar(fa.X.Type(), fa.Field) != f || la.isFresh(fa.X) {
+				return
+			}
+			for _, ref := range *fa.Referrers() {
+				switch r := ref.(type) {
+				case *ssa.Store:
+					if r.Addr == ssa.Value(fa) {
+						hit = true
+					}
+				case *ssa.UnOp:
+					for _, r2 := range *r.Referrers() {
+						switch u := r2.(type) {
+						case *ssa.MapUpdate:
+							if u.Map == ssa.Value(r) {
+								hit = true
+							}
+						case *ssa.IndexAddr:
+							for _, r3 := range *u.Referrers() {
+								if s3, ok := r3.(*ssa.Store); ok && s3.Addr == ssa.Value(u) {
+									hit = true
+								}
+							}
+						}
+					}
+				case ssa.CallInstruction:
+					hit = true
+				}
+			}
+		})
+	}
+	return hit
 }
